@@ -5,6 +5,7 @@ import (
 	"encoding/hex"
 	"hash"
 	"io"
+	"io/ioutil"
 	"os"
 	"path/filepath"
 )
@@ -16,6 +17,9 @@ type File struct {
 	hd Header
 	rd io.ReadCloser
 	wr io.WriteCloser
+	// The name of the entry. An entry that is being written lives under a
+	// name of its own until Close moves it into place.
+	name string
 }
 
 // Open a cache file for reading.
@@ -49,7 +53,7 @@ func Open(path string, h hash.Hash, rsum, dsum []byte) (*File, error) {
 	}
 
 	rd := flate.NewReader(f)
-	return &File{h, f, hd, rd, nil}, ret
+	return &File{h, f, hd, rd, nil, name}, ret
 }
 
 // CreateLevel creates a new cache file with the given compression level.
@@ -59,7 +63,11 @@ func CreateLevel(path string, h hash.Hash, rsum, dsum []byte, level int) (*File,
 	lsum := h.Sum(nil)
 	name := filepath.Join(path, hex.EncodeToString(lsum))
 
-	f, err := os.Create(name)
+	// The entry is written under a name of its own and takes its place only
+	// when it is complete: whoever opens the entry meanwhile, to read it or
+	// to write it again, never finds it half done, and is not disturbed in
+	// what it is reading either.
+	f, err := ioutil.TempFile(path, filepath.Base(name)+".tmp-*")
 	if err != nil {
 		return nil, err
 	}
@@ -68,7 +76,7 @@ func CreateLevel(path string, h hash.Hash, rsum, dsum []byte, level int) (*File,
 		// Without room for the header there is no entry: a body written
 		// where the header belongs would later be finalised over.
 		f.Close()
-		os.Remove(name)
+		os.Remove(f.Name())
 		return nil, err
 	}
 
@@ -77,10 +85,10 @@ func CreateLevel(path string, h hash.Hash, rsum, dsum []byte, level int) (*File,
 	wr, err := flate.NewWriter(f, level)
 	if err != nil {
 		f.Close()
-		os.Remove(name)
+		os.Remove(f.Name())
 		return nil, err
 	}
-	return &File{h, f, hd, rd, wr}, nil
+	return &File{h, f, hd, rd, wr, name}, nil
 }
 
 // Create a new cache file with the default compression level.
@@ -88,9 +96,9 @@ func Create(path string, h hash.Hash, rsum, dsum []byte) (*File, error) {
 	return CreateLevel(path, h, rsum, dsum, flate.DefaultCompression)
 }
 
-// Name returns the name of the file.
+// Name returns the name of the entry.
 func (f *File) Name() string {
-	return f.f.Name()
+	return f.name
 }
 
 // Read from the file through the flate.Reader.
@@ -111,46 +119,64 @@ func (f *File) Write(p []byte) (int, error) {
 	return f.wr.Write(p)
 }
 
-// Discard closes the file without finalising the entry: its header stays as
-// it is, so an entry that was being written never becomes valid.
+// Discard closes the file without finalising the entry. What was written of
+// an entry is removed; the entry under Name, if there is one, is left alone.
 func (f *File) Discard() error {
 	f.rd.Close()
-	return f.f.Close()
+	err := f.f.Close()
+	if f.wr != nil {
+		os.Remove(f.f.Name())
+	}
+	return err
 }
 
-// Close the files and write the body hash sum to the header.
+// Close the files. For an entry that was written, write the body hash sum to
+// the header and move the entry into its place; if that fails at any point,
+// nothing is left of it.
 func (f *File) Close() error {
-	defer f.f.Close()
 	defer f.rd.Close()
 
-	if f.wr != nil {
-		ret := f.wr.Close()
-		if ret != nil {
-			// The body is incomplete: leave the placeholder header in place
-			// so that the entry can never be opened.
-			return ret
-		}
+	if f.wr == nil {
+		return f.f.Close()
+	}
 
-		if _, err := f.f.Seek(int64(f.h.Size())*3, io.SeekStart); ret == nil {
-			ret = err
-		}
+	ret := f.finalise()
+	if err := f.f.Close(); ret == nil {
+		ret = err
+	}
+	if ret == nil {
+		ret = os.Rename(f.f.Name(), f.name)
+	}
+	if ret != nil {
+		os.Remove(f.f.Name())
+	}
+	return ret
+}
 
-		f.h.Reset()
-		if _, err := io.Copy(f.h, f.f); ret == nil {
-			ret = err
-		}
-
-		f.hd.BodySum = f.h.Sum(nil)
-		if _, err := f.f.Seek(0, io.SeekStart); ret == nil {
-			ret = err
-		}
-
-		if _, err := f.hd.WriteTo(f.f); ret == nil {
-			ret = err
-		}
-
+func (f *File) finalise() error {
+	ret := f.wr.Close()
+	if ret != nil {
+		// The body is incomplete.
 		return ret
 	}
 
-	return nil
+	if _, err := f.f.Seek(int64(f.h.Size())*3, io.SeekStart); ret == nil {
+		ret = err
+	}
+
+	f.h.Reset()
+	if _, err := io.Copy(f.h, f.f); ret == nil {
+		ret = err
+	}
+
+	f.hd.BodySum = f.h.Sum(nil)
+	if _, err := f.f.Seek(0, io.SeekStart); ret == nil {
+		ret = err
+	}
+
+	if _, err := f.hd.WriteTo(f.f); ret == nil {
+		ret = err
+	}
+
+	return ret
 }
